@@ -80,6 +80,15 @@ def handle (op : String) (args : List String) : Option String :=
       match meaning codingF f with
       | none => pure "false"
       | some m => pure (boolStr (meshStr m == " ".intercalate rest))
+  | "c08.holds.mesh_other_size_rejected" => do
+      -- args: <spec> then the implementation's result; theorem ply_spec_mesh_other_size_rejected: a face element of the
+      -- covered grammar holding a face whose size is neither 3 nor 4 makes the reader return an error
+      let (f, rest) ← pSpec args
+      match f.face with
+      | none => pure "false"
+      | some fe =>
+        let hasOther := fe.faces.any (fun fc => fc.verts.length != 3 && fc.verts.length != 4)
+        pure (boolStr (hasOther && rest == ["err"]))
   | "c08.holds.header_cut_rejected" =>
       -- args: cut position, result class of ply.ReadHeader on the strict prefix; theorem ply_header_cut_bytes: an error
       some (boolStr (match args with | [_, "err"] => true | _ => false))
